@@ -44,6 +44,7 @@ func checkC06(c *Ctx) {
 	reportHTX(c, r, map[string]bool{"HTX-T": true})
 	ruleHTXKind(c, r)
 	ruleEscSet(c, r.h)
+	ruleTextKinds(c)
 	// 6. references: first definition wins, label matching is by the one normaliser with the spec's white space
 	ruleFirstWins(c)
 	ruleNormProv(c)
